@@ -235,6 +235,39 @@ func ruleChainOrder(c *eng.Ctx) {
 			}
 		}
 	}
+	if nIdx == 0 {
+		// the entry may be selected by a function or by a method of a small interface that is handed the stage index:
+		// every implementation then indexes (if it indexes at all) with the parameter that receives the index
+		for v := range eng.Slice(args[2], func(call *ssa.Call) bool { return true }) {
+			call, ok := v.(*ssa.Call)
+			if !ok {
+				continue
+			}
+			cargs := eng.ArgsWithRecv(call)
+			ai := -1
+			for i, a := range cargs {
+				if a == idxVal {
+					ai = i
+				}
+			}
+			if ai < 0 {
+				continue
+			}
+			for _, g := range c.P.Callees(call) {
+				if g.Blocks == nil || !eng.InModule(g) || ai >= len(g.Params) {
+					continue
+				}
+				eng.Instrs(g, false, func(in ssa.Instruction) {
+					if ia, ok := in.(*ssa.IndexAddr); ok {
+						nIdx++
+						if ia.Index != ssa.Value(g.Params[ai]) {
+							okIdx = false
+						}
+					}
+				})
+			}
+		}
+	}
 	c.Check(okIdx && nIdx >= 1, R, name+"#parms-index", loopCall.Pos(), "DecodeParms entry is selected with the filter's own index", "DecodeParms entry of a chain stage is not selected with the stage's own index")
 	c.Check(!carried, R, name+"#parms-fresh", loopCall.Pos(), "parameters are recomputed for every stage", "DecodeParms of a stage can be inherited from an earlier stage (value carried around the loop)")
 	// error of the stage is returned
@@ -271,6 +304,11 @@ func rulePredictorTable(c *eng.Ctx) {
 	fn := c.P.Func("internal/filters.applyPredictor")
 	if fn == nil {
 		c.Undec(R, "filters.applyPredictor", token.NoPos, "anchor not found")
+		return
+	}
+	// table form: the decoder is looked up in a read-only package-level map keyed by the predictor value
+	if done := predictorTableForm(c, R, fn); done {
+		predictorRowTags(c, R)
 		return
 	}
 	// the predictor value: what is passed on to the PNG decoder as its predictor argument (the dispatch may have
@@ -359,52 +397,7 @@ func rulePredictorTable(c *eng.Ctx) {
 	c.Check(idOK, R, "filters.applyPredictor#1->identity", fn.Pos(), "predictor 1 returns the data unchanged", "predictor 1 is no longer the identity")
 	c.Check(errOK, R, "filters.applyPredictor#else->error", fn.Pos(), "unsupported predictors are an error", "unsupported predictor values no longer produce an error")
 
-	pr := findPNGRow(c.P)
-	if pr == nil || pr.find("tag") == nil {
-		c.Undec(R, "filters.decodePNGRow", token.NoPos, "anchor not found")
-		return
-	}
-	row := pr.fn
-	tags := map[int64]bool{}
-	eng.Instrs(row, false, func(in ssa.Instruction) {
-		if b, ok := in.(*ssa.BinOp); ok && b.Op == token.EQL && pr.role(b.X) == "tag" {
-			if k, ok := eng.ConstInt(b.Y); ok {
-				tags[k] = true
-			}
-		}
-	})
-	allTags := tags[0] && tags[1] && tags[2] && tags[3] && tags[4] && len(tags) == 5
-	errDefault := false
-	for _, r := range eng.Returns(row) {
-		if nn, known := eng.ErrValueNonNil(r.Results[len(r.Results)-1]); known && nn {
-			errDefault = true
-		}
-	}
-	if !errDefault {
-		// the rejection may live in the strategy chosen for unknown tags (a closure that returns the error) with the
-		// row decoder handing on whatever error the strategy reports
-		inner := false
-		for _, an := range row.AnonFuncs {
-			for _, r := range eng.Returns(an) {
-				if len(r.Results) > 0 {
-					if nn, known := eng.ErrValueNonNil(r.Results[len(r.Results)-1]); known && nn {
-						inner = true
-					}
-				}
-			}
-		}
-		propagates := false
-		for _, r := range eng.Returns(row) {
-			last := r.Results[len(r.Results)-1]
-			if ex, ok := last.(*ssa.Extract); ok {
-				if call, ok := ex.Tuple.(*ssa.Call); ok && eng.StaticCallee(call) == nil && !call.Call.IsInvoke() {
-					propagates = true
-				}
-			}
-		}
-		errDefault = inner && propagates
-	}
-	c.Check(allTags && errDefault, R, "filters.decodePNGRow#tags", row.Pos(), "row tags 0..4 handled, others rejected", fmt.Sprintf("row tag dispatch changed (tags compared: %v, erroring default: %v)", sortedKeys(tags), errDefault))
+	predictorRowTags(c, R)
 }
 
 func sortedKeys(m map[int64]bool) []int64 {
@@ -1272,7 +1265,9 @@ func ruleASCIIClasses(c *eng.Ctx) {
 	// 'z' -> four zero bytes: a Write of a 4-element zero literal guarded by == 'z'
 	if fn := c.P.Func("internal/filters.ASCII85Decode"); fn != nil {
 		okZ := false
-		for _, ci := range eng.Calls(fn, false, func(n string, _ ssa.CallInstruction) bool { return strings.HasSuffix(n, ".Write") }) {
+		for _, ci := range eng.Calls(fn, false, func(n string, _ ssa.CallInstruction) bool {
+			return strings.HasSuffix(n, ".Write") || n == "builtin:append" // (the output may be a plain []byte that is appended to)
+		}) {
 			g := eng.GuardedBy(fn, ci.Block(), func(f eng.Fact) bool {
 				op, _, y, ok := f.Cmp()
 				k, isC := eng.ConstInt(y)
@@ -1685,4 +1680,157 @@ func handlerKey(v ssa.Value) string {
 		return key + ")"
 	}
 	return ""
+}
+
+// predictorRowTags: the second half of R5.3 (row tags 0..4 of the PNG row decoder).
+func predictorRowTags(c *eng.Ctx, R string) {
+	pr := findPNGRow(c.P)
+	if pr == nil || pr.find("tag") == nil {
+		c.Undec(R, "filters.decodePNGRow", token.NoPos, "anchor not found")
+		return
+	}
+	row := pr.fn
+	tags := map[int64]bool{}
+	eng.Instrs(row, false, func(in ssa.Instruction) {
+		if b, ok := in.(*ssa.BinOp); ok && b.Op == token.EQL && pr.role(b.X) == "tag" {
+			if k, ok := eng.ConstInt(b.Y); ok {
+				tags[k] = true
+			}
+		}
+	})
+	allTags := tags[0] && tags[1] && tags[2] && tags[3] && tags[4] && len(tags) == 5
+	errDefault := false
+	for _, r := range eng.Returns(row) {
+		if nn, known := eng.ErrValueNonNil(r.Results[len(r.Results)-1]); known && nn {
+			errDefault = true
+		}
+	}
+	if !errDefault {
+		// the rejection may live in the strategy chosen for unknown tags (a closure that returns the error) with the
+		// row decoder handing on whatever error the strategy reports
+		inner := false
+		for _, an := range row.AnonFuncs {
+			for _, r := range eng.Returns(an) {
+				if len(r.Results) > 0 {
+					if nn, known := eng.ErrValueNonNil(r.Results[len(r.Results)-1]); known && nn {
+						inner = true
+					}
+				}
+			}
+		}
+		propagates := false
+		for _, r := range eng.Returns(row) {
+			last := r.Results[len(r.Results)-1]
+			if ex, ok := last.(*ssa.Extract); ok {
+				if call, ok := ex.Tuple.(*ssa.Call); ok && eng.StaticCallee(call) == nil && !call.Call.IsInvoke() {
+					propagates = true
+				}
+			}
+		}
+		errDefault = inner && propagates
+	}
+	c.Check(allTags && errDefault, R, "filters.decodePNGRow#tags", row.Pos(), "row tags 0..4 handled, others rejected", fmt.Sprintf("row tag dispatch changed (tags compared: %v, erroring default: %v)", sortedKeys(tags), errDefault))
+}
+
+// predictorTableForm handles applyPredictor written as a lookup in a package-level table of decoder functions.
+func predictorTableForm(c *eng.Ctx, R string, fn *ssa.Function) bool {
+	var lk *ssa.Lookup
+	var entries map[int64]ssa.Value
+	eng.Instrs(fn, false, func(in ssa.Instruction) {
+		x, ok := in.(*ssa.Lookup)
+		if !ok || lk != nil {
+			return
+		}
+		u, ok := x.X.(*ssa.UnOp)
+		if !ok {
+			return
+		}
+		g, ok := u.X.(*ssa.Global)
+		if !ok {
+			return
+		}
+		if _, ints, ok := eng.GlobalMapEntries(g); ok && len(ints) > 0 {
+			lk, entries = x, ints
+		}
+	})
+	if lk == nil || len(fn.Params) < 2 || !eng.SameValue(lk.Index, fn.Params[1]) {
+		return false
+	}
+	reaches := func(v ssa.Value, target string) bool {
+		var f *ssa.Function
+		switch x := v.(type) {
+		case *ssa.Function:
+			f = x
+		case *ssa.MakeClosure:
+			f, _ = x.Fn.(*ssa.Function)
+		case *ssa.ChangeType:
+			f, _ = x.X.(*ssa.Function)
+		}
+		if f == nil {
+			return false
+		}
+		if eng.FuncName(f) == target {
+			return true
+		}
+		// an adapter: hands its own data parameter to the target and returns what it returns
+		for _, ci := range eng.CallsNamed(f, false, target) {
+			if len(f.Params) > 0 && ci.Common().Args[0] == ssa.Value(f.Params[0]) {
+				return true
+			}
+		}
+		return false
+	}
+	identity := func(v ssa.Value) bool {
+		f, _ := v.(*ssa.Function)
+		if ct, ok := v.(*ssa.ChangeType); ok {
+			f, _ = ct.X.(*ssa.Function)
+		}
+		if f == nil || f.Blocks == nil || len(f.Params) == 0 {
+			return false
+		}
+		rets := eng.Returns(f)
+		if len(rets) != 1 || len(rets[0].Results) != 2 {
+			return false
+		}
+		return rets[0].Results[0] == ssa.Value(f.Params[0]) && eng.IsNilConst(rets[0].Results[1])
+	}
+	okTIFF := entries[2] != nil && reaches(entries[2], "internal/filters.applyTIFFPredictor2")
+	okPNG := true
+	for k := int64(10); k <= 15; k++ {
+		if entries[k] == nil || !reaches(entries[k], "internal/filters.applyPNGPredictor") {
+			okPNG = false
+		}
+	}
+	extra := false
+	for k := range entries {
+		if k != 1 && k != 2 && (k < 10 || k > 15) {
+			extra = true
+		}
+	}
+	c.Check(okTIFF && !extra, R, "filters.applyPredictor#predictor 2 -> TIFF", fn.Pos(), "predictor 2 -> TIFF", "dispatch changed: predictor 2 -> TIFF no longer holds exactly")
+	c.Check(okPNG && !extra, R, "filters.applyPredictor#predictor 10..15 -> PNG", fn.Pos(), "predictor 10..15 -> PNG", "dispatch changed: predictor 10..15 -> PNG no longer holds exactly")
+	c.Check(entries[1] != nil && identity(entries[1]), R, "filters.applyPredictor#1->identity", fn.Pos(), "predictor 1 returns the data unchanged", "predictor 1 is no longer the identity")
+	// a missing key is an error: the lookup's ok result is tested and the miss side returns a non-nil error
+	errOK := false
+	for _, r := range eng.Returns(fn) {
+		if len(r.Results) == 2 {
+			if nn, known := eng.ErrValueNonNil(r.Results[1]); known && nn && eng.IsNilConst(r.Results[0]) {
+				errOK = true
+			}
+		}
+	}
+	c.Check(errOK && lk.CommaOk, R, "filters.applyPredictor#else->error", fn.Pos(), "unsupported predictors are an error", "unsupported predictor values no longer produce an error")
+	// the entry found is called with the incoming data and predictor
+	called := false
+	eng.Instrs(fn, false, func(in ssa.Instruction) {
+		call, ok := in.(*ssa.Call)
+		if !ok || eng.StaticCallee(call) != nil || call.Call.IsInvoke() {
+			return
+		}
+		if len(call.Call.Args) >= 2 && call.Call.Args[0] == ssa.Value(fn.Params[0]) && eng.SameValue(call.Call.Args[1], fn.Params[1]) {
+			called = true
+		}
+	})
+	c.Check(called, R, "filters.applyPredictor#table-call", fn.Pos(), "the decoder found is called with the incoming data and predictor", "the decoder taken from the table is not called with the incoming data and predictor value")
+	return true
 }
